@@ -1,5 +1,6 @@
 import EncodingRs.Lemmas.OneShot
 import EncodingRs.Lemmas.OneShotCap
+import EncodingRs.Lemmas.OneShotEnc
 /-!
 # C11 — the one-shot convenience API equals the streaming API and borrows only when promised
 
@@ -1073,6 +1074,183 @@ theorem decode_cap_total (v : Gen.Variant) (bytes : List Nat) (fuel : Nat)
       (fun b hm => hb b (List.mem_of_mem_drop hm)) (by omega) (by omega) hadm
     refine ⟨r, u, by rw [hr]; rfl, ?_⟩
     rw [decodeWithoutBomHandlingCap_ok _ _ fuel slack bs r hr]; rfl
+
+/-! ### (f) `Encoding::encode`
+
+The reference is `erefHtml (efamOfVariant vo) init text` — by C03 `encode_conforms` the output of the
+Standard's "encode" (error mode html) of the output encoding on `text`, and by C04
+`enc_history_eq_ref` + `erefHtml_eq` what ANY protocol-following streaming history of the `Encoder`
+yields when every `Unmappable(c)` is written as `&#c;`. -/
+
+open EncodingRs.Lemmas.OneShotEnc EncodingRs.Lemmas.EncCore
+
+/-- the bytes of the `&str` argument: the UTF-8 form of a text of scalar values; `Utf8Source` reads
+the text back (C03 `utf8_source_reads`) -/
+theorem chars_utf8 (text : List Nat) (ht : ∀ c ∈ text, c < 0x110000) :
+    chars false (Spec.Conv.utf8EncodeAll text) = text := by
+  unfold chars
+  show (items8 (Spec.Conv.utf8EncodeAll text)).map Prod.fst = text
+  rw [Thm.C03.utf8_source_reads text ht, List.map_map]
+  simp [Function.comp_def]
+
+/-- the documented borrow condition of `encode`, on the variant of the output encoding -/
+def EncBorrowCond (vo : Gen.Variant) (bytes : List Nat) : Prop :=
+  vo = .utf8 ∨
+  (vo = .iso2022Jp ∧ ∀ b ∈ bytes, b < 0x80 ∧ b ≠ 0x0E ∧ b ≠ 0x0F ∧ b ≠ 0x1B) ∨
+  (vo ≠ .utf8 ∧ vo ≠ .iso2022Jp ∧ ∀ b ∈ bytes, b < 0x80)
+
+theorem passPred_all_iff (vo : Gen.Variant) (h8 : vo ≠ .utf8) (bytes : List Nat) :
+    (∀ b ∈ bytes, passPred vo b = true) ↔ EncBorrowCond vo bytes := by
+  unfold EncBorrowCond passPred
+  by_cases hi : vo = .iso2022Jp
+  · simp [hi]
+  · simp [hi, h8]
+
+/-- **C11 (f), bytes and flag**: for every output-encoding variant, every text, every stop policy of
+every inner raw call, every slack of the allocator and every number of `OutputFull` / `reserve_exact`
+rounds: whenever the model of `encode` returns, the bytes are the reference (`erefHtml` = the Standard's
+html-mode encode, C03) of the WHOLE text and `had_unmappables` says whether the reference run of the raw
+API reports an unmappable character -/
+theorem encodeV_eq_stream (vo : Gen.Variant) (text bytes : List Nat) (fuel : Nat) (slack : List Nat)
+    (bs : List (List Budget)) (r : EncRes) (ht : ∀ c ∈ text, c < 0x110000)
+    (hbytes : bytes = Spec.Conv.utf8EncodeAll text) (h : encodeV vo bytes fuel slack bs = .ok r) :
+    r.bytes = Lemmas.ConformEnc.erefHtml (efamOfVariant vo) (efamOfVariant vo).init text ∧
+    r.hadUnmappables = anyUnmap (eref (efamOfVariant vo) (efamOfVariant vo).init text) := by
+  have hchars : chars false bytes = text := by rw [hbytes]; exact chars_utf8 text ht
+  rw [erefHtml_eq]
+  unfold encodeV at h
+  by_cases h8 : vo = .utf8
+  · simp only [h8, if_true, Outcome.ok.injEq] at h
+    subst h
+    rw [h8]
+    obtain ⟨u1, u2⟩ := utf8_eref text
+    exact ⟨by rw [hbytes]; exact u1.symm, u2.symm⟩
+  · simp only [h8, if_false] at h
+    have hsplit := chars_ascii_prefix (passPred vo) (passPred_ascii vo) bytes
+    rw [← validUpToNoRepl_upTo, hchars] at hsplit
+    have hpre : ∀ c ∈ bytes.take (validUpToNoRepl vo bytes), passPred vo c = true := by
+      rw [validUpToNoRepl_upTo]; exact upTo_take_all _ _
+    have href := eref_pass vo (bytes.take (validUpToNoRepl vo bytes))
+      (chars false (bytes.drop (validUpToNoRepl vo bytes))) hpre
+    rw [← hsplit] at href
+    by_cases hn : validUpToNoRepl vo bytes = bytes.length
+    · simp only [hn, if_true, Outcome.ok.injEq] at h
+      subst h
+      have hnil : eref (efamOfVariant vo) (efamOfVariant vo).init (chars false (bytes.drop bytes.length)) = [] := by
+        rw [List.drop_length]; unfold chars; rw [Lemmas.ConformEnc.itemsFn_nil]; simp [eref, init_eof_nil]
+      rw [hn, hnil, List.take_length, List.append_nil] at href
+      rw [href, htmlE_bytes, anyUnmap_bytes]
+      exact ⟨rfl, rfl⟩
+    · simp only [hn, if_false] at h
+      cases hc : Gen.MaxLen.U.addO (validUpToNoRepl vo bytes)
+          (encMaxIfNoUnmappables false vo (bytes.length - validUpToNoRepl vo bytes)) with
+      | none => rw [hc] at h; cases h
+      | some c0 =>
+        rw [hc] at h
+        simp only at h
+        obtain ⟨p, hp, hf⟩ := map_ok _ _ _ h
+        obtain ⟨o, e⟩ := p
+        obtain ⟨j1, j2⟩ := encodeLoop_sound vo fuel fuel _ _ _ _ _ _ o e hp
+        simp only at hf
+        subst hf
+        simp only
+        rw [href, htmlE_append, htmlE_bytes, anyUnmap_append, anyUnmap_bytes, j1, j2]
+        exact ⟨rfl, by simp⟩
+
+/-- `had_unmappables` in words: some `Unmappable` report occurs in the reference run -/
+theorem anyUnmap_iff (l : List EEv) : anyUnmap l = true ↔ ∃ u, EEv.unmap u ∈ l := by
+  induction l with
+  | nil => simp [anyUnmap]
+  | cons a t ih =>
+    cases a with
+    | byte b => simp [anyUnmap, ih]
+    | unmap u => simp only [anyUnmap, true_iff]; exact ⟨u, List.mem_cons_self ..⟩
+
+/-- **C11 (f), borrowing**: `Cow::Borrowed` iff the documented condition (output encoding UTF-8:
+always; ISO-2022-JP: every byte ASCII other than 0E / 0F / 1B; otherwise: every byte ASCII); a borrowed
+result is the input itself with `had_unmappables = false`.  No hypothesis on the input. -/
+theorem encodeV_borrow_iff (vo : Gen.Variant) (bytes : List Nat) (fuel : Nat) (slack : List Nat)
+    (bs : List (List Budget)) (r : EncRes) (h : encodeV vo bytes fuel slack bs = .ok r) :
+    (r.borrowed = true ↔ EncBorrowCond vo bytes) ∧
+    (r.borrowed = true → r.bytes = bytes ∧ r.hadUnmappables = false) := by
+  unfold encodeV at h
+  by_cases h8 : vo = .utf8
+  · simp only [h8, if_true, Outcome.ok.injEq] at h
+    subst h
+    exact ⟨⟨fun _ => Or.inl h8, fun _ => rfl⟩, fun _ => ⟨rfl, rfl⟩⟩
+  · simp only [h8, if_false] at h
+    by_cases hn : validUpToNoRepl vo bytes = bytes.length
+    · simp only [hn, if_true, Outcome.ok.injEq] at h
+      subst h
+      refine ⟨⟨fun _ => ?_, fun _ => rfl⟩, fun _ => ⟨rfl, rfl⟩⟩
+      rw [validUpToNoRepl_upTo, upTo_eq_length_iff] at hn
+      exact (passPred_all_iff vo h8 bytes).mp hn
+    · simp only [hn, if_false] at h
+      cases hc : Gen.MaxLen.U.addO (validUpToNoRepl vo bytes)
+          (encMaxIfNoUnmappables false vo (bytes.length - validUpToNoRepl vo bytes)) with
+      | none => rw [hc] at h; cases h
+      | some c0 =>
+        rw [hc] at h
+        simp only at h
+        obtain ⟨p, _, hf⟩ := map_ok _ _ _ h
+        obtain ⟨o, e⟩ := p
+        simp only at hf
+        subst hf
+        refine ⟨⟨fun hh => (by cases hh), fun hcond => ?_⟩, fun hh => (by cases hh)⟩
+        exfalso
+        apply hn
+        rw [validUpToNoRepl_upTo, upTo_eq_length_iff]
+        exact (passPred_all_iff vo h8 bytes).mpr hcond
+
+/-- **C11 (f), encoding used**: `encode` reports `output_encoding()` and encodes with the encoder
+`output_encoding().new_encoder()` constructs (C20 `newEncoder_eq`); the model's variant test
+`vo = .utf8` is the Rust's `output_encoding == UTF_8` -/
+theorem encode_used (i : Nat) (bytes : List Nat) (fuel : Nat) (slack : List Nat) (bs : List (List Budget))
+    (r : EncRes) (u : Nat) (h : OneShot.encode i bytes fuel slack bs = .ok (r, u)) :
+    u = Meta.outputEncoding i ∧ encodeV (Meta.variantAt (Meta.outputEncoding i)) bytes fuel slack bs = .ok r := by
+  unfold OneShot.encode at h
+  obtain ⟨a, ha, hf⟩ := map_ok _ _ _ h
+  simp only [Prod.mk.injEq] at hf
+  exact ⟨hf.2.symm, by rw [ha, hf.1]⟩
+
+theorem outputEncoding_lt (i : Nat) (hi : i < 40) : Meta.outputEncoding i < 40 := by
+  unfold Meta.outputEncoding
+  split
+  · decide
+  · exact hi
+
+theorem encode_encoder (i : Nat) (hi : i < 40) :
+    Meta.newEncoder (Meta.outputEncoding i) = some (efamOfVariant (Meta.variantAt (Meta.outputEncoding i))) :=
+  Thm.C20.newEncoder_eq _ (outputEncoding_lt i hi)
+
+theorem outputEncoding_utf8_iff :
+    (List.range 40).all (fun i =>
+      decide (Meta.variantAt (Meta.outputEncoding i) = .utf8 ↔ Meta.outputEncoding i = Gen.utf8Idx)) = true := by
+  decide +kernel
+
+/-- **C11 (f), the Standard**: for each of the 40 encodings `e` that is its own output encoding
+(all but UTF-16BE/LE/replacement, whose output encoding is UTF-8), the bytes `encode` returns are the
+output of the Standard's "encode" of that encoding, error mode html, on the text -/
+theorem encodeV_conforms (e : Gen.EncodingInit) (he : e ∈ Gen.encodings) (text bytes : List Nat) (fuel : Nat)
+    (slack : List Nat) (bs : List (List Budget)) (r : EncRes) (ht : ∀ c ∈ text, c < 0x110000)
+    (hbytes : bytes = Spec.Conv.utf8EncodeAll text) (h : encodeV e.variant bytes fuel slack bs = .ok r) :
+    ∃ E : Spec.Encode.Encoder, Spec.Encode.encoderOfName (Spec.Encode.outputEncodingName e.name) = some E ∧
+      Spec.Encode.Runs E .html E.init text (r.bytes.map Spec.Encode.Ev.byte) := by
+  obtain ⟨E, hE, _, hhtml⟩ := Thm.C03.encode_conforms e he text ht
+  exact ⟨E, hE, by rw [(encodeV_eq_stream e.variant text bytes fuel slack bs r ht hbytes h).1]; exact hhtml⟩
+
+/-- against the streaming `Encoder` directly: **any** protocol-following history `ev` of raw encoder
+calls over the text (C04 `EProto`: any chunking at character boundaries, any capacities, either source
+form) yields, with `&#c;` written for each `Unmappable(c)`, the bytes `encode` returns, and reports an
+unmappable character iff `encode` says `had_unmappables` -/
+theorem encodeV_eq_any_history (vo : Gen.Variant) (text bytes : List Nat) (fuel : Nat) (slack : List Nat)
+    (bs : List (List Budget)) (r : EncRes) (ht : ∀ c ∈ text, c < 0x110000)
+    (hbytes : bytes = Spec.Conv.utf8EncodeAll text) (h : encodeV vo bytes fuel slack bs = .ok r)
+    (ev : List EEv) (hist : Thm.C04.EProto (efamOfVariant vo) (efamOfVariant vo).init text ev) :
+    r.bytes = htmlE ev ∧ (r.hadUnmappables = true ↔ ∃ u, EEv.unmap u ∈ ev) := by
+  obtain ⟨k1, k2⟩ := encodeV_eq_stream vo text bytes fuel slack bs r ht hbytes h
+  rw [Thm.C04.enc_history_eq_ref _ (Thm.C04.variant_elaws vo) _ _ _ hist]
+  exact ⟨by rw [k1, erefHtml_eq], by rw [k2, anyUnmap_iff]⟩
 
 /- PENDING: `oneshot_no_unreachable` at full strength —
 
